@@ -42,6 +42,7 @@ fn op(u: &mut Unstructured<'_>, consume: bool, depth: u32) -> arbitrary::Result<
         7 => if u.ratio(1u8, 4u8)? { Op::LoopbackAdopt(u.arbitrary()?) } else { Op::Unadopt { a: u.arbitrary()?, b: u.arbitrary()? } },
         8 if u.ratio(1u8, 6u8)? => Op::ClearSlots { owner: u.arbitrary()?, leave: u.int_in_range(0u8..=2)?, unadopt: u.arbitrary()?, keep: u.arbitrary()? },
         8 => Op::Remove { owner: u.arbitrary()?, slot: u.arbitrary()?, unadopt: u.arbitrary()?, keep: u.arbitrary()? },
+        9 if u.ratio(1u8, 8u8)? => Op::NewUninitAdopted { target: u.arbitrary()?, loopback: u.arbitrary()? },
         9 => Op::Downgrade(u.arbitrary()?),
         10 => Op::CloneWeak(u.arbitrary()?),
         11 => Op::DropWeak(u.arbitrary()?),
